@@ -82,6 +82,12 @@ func (st *State) callFn(fn *ssa.Function, args []Value, env []Value, deferOf *fr
 		if h, ok := st.E.Intrinsics[fn.Name()]; ok {
 			return h(st, args)
 		}
+		// a function of the intrinsics file without an engine meaning must never run its native body
+		if pos := fn.Pos(); pos.IsValid() {
+			if f := st.E.P.Fset.Position(pos).Filename; strings.HasSuffix(f, "zz_verif_intrinsics.go") {
+				st.unsupported("harness intrinsic %s has no engine implementation", fn.Name())
+			}
+		}
 	}
 	if h, ok := st.E.Hooks[name]; ok {
 		st.E.noteUsed("hook", name)
